@@ -14,6 +14,8 @@ def _text(req):
 
 
 def nontrivial(req, obs):
+    if req.startswith("C10.emit"):
+        return not obs.startswith("!")
     # at least three tokens, or a numeric literal
     return obs.count(";") >= 2 or any(k in obs for k in NUMERIC)
 
@@ -35,11 +37,23 @@ def finding_key(req, obs, detail):
             body = m.group(1)
             base = "hex" if body.startswith("0x") else "octal" if len(body) > 1 and body.startswith("0") else "decimal"
             return "lexer.rs literal_%s_int: `value as i64` wraps a literal >= 2^63 with suffix l to a negative value" % base
+    m = re.match(r"FAIL:emit IntU32 literal (\S+?)[uU] printed as (\d+)u$", d)
+    if m:
+        body = m.group(1)
+        written = int(body, 16) if body.startswith("0x") else int(body, 8) if len(body) > 1 and body[0] == "0" and body[1] in "01234567" else int(body)
+        if written >= 2 ** 32 and int(m.group(2)) == written % 2 ** 32:
+            return "typer/expressions.rs: IntUnsigned32 literal >= 2^32 truncated by `*i as u32`"
+    if re.match(r"FAIL:emit Float64 literal \S+ printed as integer literal \d+L$", d):
+        return "formatter.rs format_literal: whole-valued Float64 printed without '.0'"
+    if re.match(r"FAIL:emit literal \S+[hH] printed as \d+h which is not a numeric literal$", d):
+        return "formatter.rs format_literal: whole-valued Float16 printed without '.0'"
     return req
 
 
 def shrink(req):
     f = req.split("\t")
+    if f[0] != "C10.lex":
+        return
     try:
         text = bytes.fromhex(f[2]).decode()
     except Exception:
